@@ -1077,6 +1077,30 @@ func c18SortIsTotal(p *Prog, cc *ssa.CallCommon, keyT types.Type, depth int) (bo
 // c18ComparatorTotal: every comparison in cmp is between components of the two elements (or their String/StringValues
 // renderings); for a struct key type every field is compared.
 func c18ComparatorTotal(cmp *ssa.Function, keyT types.Type) (bool, string) {
+	// func(i, j int) bool { return lessKey(s[i], s[j]) }: the comparison is the named function's
+	if len(cmp.Blocks) == 1 {
+		if ret, ok := cmp.Blocks[0].Instrs[len(cmp.Blocks[0].Instrs)-1].(*ssa.Return); ok && len(ret.Results) == 1 {
+			if call, ok := ret.Results[0].(*ssa.Call); ok {
+				if h := call.Call.StaticCallee(); h != nil && h.Pkg == cmp.Pkg && h.Blocks != nil && len(h.Params) == 2 && len(call.Call.Args) == 2 {
+					elem := func(v ssa.Value) bool {
+						u, ok := v.(*ssa.UnOp)
+						if !ok || u.Op != token.MUL {
+							return false
+						}
+						ia, ok := u.X.(*ssa.IndexAddr)
+						if !ok {
+							return false
+						}
+						_, isParam := ia.Index.(*ssa.Parameter)
+						return isParam
+					}
+					if elem(call.Call.Args[0]) && elem(call.Call.Args[1]) && call.Call.Args[0] != call.Call.Args[1] {
+						cmp = h
+					}
+				}
+			}
+		}
+	}
 	var fieldsSeen = map[string]bool{}
 	var elemDerived func(v ssa.Value, d int, top *string) bool
 	elemDerived = func(v ssa.Value, d int, top *string) bool {
@@ -1107,6 +1131,14 @@ func c18ComparatorTotal(cmp *ssa.Function, keyT types.Type) (bool, string) {
 		case *ssa.Parameter:
 			// slices.SortFunc style comparators receive the elements themselves
 			return !isInteger(x.Type())
+		case *ssa.Alloc:
+			// an element parameter spilled so that its fields can be addressed
+			sts := storesInto(x)
+			if len(sts) == 1 {
+				if prm, ok := sts[0].Val.(*ssa.Parameter); ok {
+					return !isInteger(prm.Type())
+				}
+			}
 		case *ssa.Call:
 			f := calleeObj(&x.Call)
 			if f == nil || (f.Name() != "StringValues" && f.Name() != "String") {
